@@ -27,6 +27,10 @@ def compare(vec: Dict[str, Any], obs: Dict[str, Any]) -> Outcome:
         op = vec["hist"][i]
         for fld in ("ctx", "raw_depth", "global", "res"):
             if e[fld] != g[fld]:
+                if (fld == "res" and op["op"] == "polars_column_validate" and op["kind"] == "lazyframe" and g[fld] == e["asis"]):
+                    if "PolarsColumnLazyFrameFullDepth" not in oc.known:
+                        oc.known.append("PolarsColumnLazyFrameFullDepth")
+                    continue
                 oc.mismatches.append("after step %d (%s): %s is %s, specification says %s"
                                      % (i + 1, _opname(op), fld, g[fld], e[fld]))
                 break
